@@ -22,7 +22,11 @@ def norm_atom(e):
         return e
     if is_setop(e) or e[0] == "bbconst":
         return canon(e)
-    return tuple(norm_atom(x) if isinstance(x, tuple) else x for x in e)
+    r = tuple(norm_atom(x) if isinstance(x, tuple) else x for x in e)
+    if r[0] in ("between", "line") and len(r) == 3 and repr(r[2]) < repr(r[1]):
+        # symmetric in their arguments (C05 audits the tables against symmetric definitions)
+        r = (r[0], r[2], r[1])
+    return r
 
 
 def collect_atoms(e, out):
